@@ -19,7 +19,8 @@ def scenarios(pid, tier, seed):
     if pid == "C14":
         return api_scen.fam_pipeline_fail(seed, big)
     if pid == "C12":
-        return api_scen.fam_handles(seed, big) + api_scen.fam_pipelines(seed, False)[::6]
+        return (api_scen.fam_handles(seed, big) + api_scen.fam_pipelines(seed, False)[::6]
+                + api_scen.fam_pipeline_fail(seed, False)[::(3 if big else 9)])
     if pid == "C08":
         return api_scen.fam_pipelines(seed, False)[::2]
     raise ToolError("no api scenarios for " + pid)
